@@ -305,6 +305,7 @@ def run(ctx):
         ctx.count(('hist', h), nontrivial=len(ops) > 2)
         last_dec = {}
         made_after = {}
+        made_tree = {}
         trees = recipes(ops)
         for i, (o, x) in enumerate(zip(ops, outs)):
             hist['operations'] += 1
@@ -313,6 +314,12 @@ def run(ctx):
                 last_dec[o['obj']] = o['smiles']
             if o['op'] == 'estimate':
                 made_after[o['eid']] = last_dec.get(o['obj'])
+                made_tree[(o['obj'], o['eid'])] = trees[i]
+            if o['op'] == 'evalest' and made_tree.get((o['obj'], o['eid'])) != trees[i]:
+                # guard: the library was merged into between making the estimate and asking it - the reference (estimate made from the
+                # library as it is NOW) is a different question; merges are explicit changes of the data, not hidden history
+                hist['straddling_merge_skipped'] = hist.get('straddling_merge_skipped', 0) + 1
+                continue
             ref = cache[ref_key(trees[i], o)]
             if not same(x, ref):
                 # the known finding: the elemental reference is the molecule decomposed last WHEN THE ESTIMATE WAS MADE
